@@ -64,9 +64,36 @@ def inputs(name, n):
     return list(range(n))
 
 
+def detached_generator():
+    """a helper enters a map (no with-block) and hands back only the generator of a call; the map object itself is not referenced
+    by the caller any more while the generator is consumed (also after a garbage collection): the call yields map(f, data)"""
+    import gc
+    from windpyutils.parallel.pools import FunctorMap
+
+    def helper(data, cs):
+        fm = FunctorMap(small, 2)
+        fm.__enter__()
+        return fm(iter(data), cs)
+
+    ok = True
+    for n, cs in ((9, 2), (5, 1), (0, 1)):
+        data = list(range(n))
+        gen = helper(data, cs)
+        gc.collect()
+        got = list(gen)
+        if got != [small(x) for x in data]:
+            print(f"WRONG fmap_detached_generator: {n} items, chunk {cs}: got {got}")
+            ok = False
+    return ok
+
+
 def main(name):
     from windpyutils.parallel.pools import FunctorMap
     from windpyutils.parallel.maps import mul_p_map
+    if name == "fmap_detached_generator":
+        ok = detached_generator()
+        print("DONE" if ok else "FAILED")
+        return 0 if ok else 1
     kind, workers, fun, calls = SCENARIOS[name]
     ok = True
     if kind == "fmap":
